@@ -107,6 +107,11 @@ func Load(goos string, overlay map[string][]byte, patterns ...string) (*Prog, er
 			}
 			inlined = append(inlined, log...)
 			cur = next
+			if d := os.Getenv("SCALINT_INLINE_DUMP"); d != "" {
+				for k, v := range edits {
+					os.WriteFile(d+"/"+strings.ReplaceAll(strings.TrimPrefix(k, "/"), "/", "_")+fmt.Sprintf(".r%d", round), v, 0o644)
+				}
+			}
 		}
 		if cur != nil {
 			pkgs = cur
